@@ -27,7 +27,7 @@ fn any_epoch() -> f64 {
     }
 }
 
-//@h {"id":"C07.K.helmert.epoch","props":["C07","C02","C10"],"tier":"quick","kind":"bounded","bound":"3 tuples; epochs chosen symbolically (in any order, with repeats) from {t_epoch, t_epoch+1, t_epoch+4, NaN}; coordinates: probe tuples; parameters: power-of-two probes T, DT, S, DS","timeout":900,"text":"translation+scale rates, no rotation: tuple i of a mixed-epoch set is transformed with T + (t_i - t_epoch)*DT and S + (t_i - t_epoch)*DS, bit-exact, in both directions -- i.e. batch == singletons; 4th coordinate untouched; count = n"}
+//@h {"id":"C07.K.helmert.epoch","props":["C07","C02","C10"],"tier":"quick","kind":"bounded","bound":"3 tuples; epochs chosen symbolically (in any order, with repeats) from {t_epoch, t_epoch+1, t_epoch+4, NaN}; coordinates: probe tuples; parameters: power-of-two probes T, DT, S, DS","timeout":1800,"text":"translation+scale rates, no rotation: tuple i of a mixed-epoch set is transformed with T + (t_i - t_epoch)*DT and S + (t_i - t_epoch)*DS, bit-exact, in both directions -- i.e. batch == singletons; 4th coordinate untouched; count = n"}
 #[kani::proof]
 #[kani::unwind(20)]
 #[kani::stub(crate::op::ParsedParameters::boolean, stub_boolean)]
@@ -103,7 +103,7 @@ fn static_case(inverse: bool) {
     assert!(beq(data[0][3], t0) && beq(data[1][3], t1), "C07.K.helmert.frame: the fourth coordinate is untouched");
 }
 
-//@h {"id":"C07.K.helmert.static.fwd","props":["C07","C02","C10","C09"],"tier":"quick","kind":"bounded","bound":"2 probe tuples (4th coordinate: all f64); parameters: power-of-two probes; rotation: signed permutation matrix","timeout":600,"text":"static 7-parameter case forward = T + S*ROT*x exactly; t bit-identical; count = n"}
+//@h {"id":"C07.K.helmert.static.fwd","props":["C07","C02","C10","C09"],"tier":"quick","kind":"bounded","bound":"2 probe tuples (4th coordinate: all f64); parameters: power-of-two probes; rotation: signed permutation matrix","timeout":1800,"text":"static 7-parameter case forward = T + S*ROT*x exactly; t bit-identical; count = n"}
 #[kani::proof]
 #[kani::unwind(20)]
 #[kani::stub(crate::op::ParsedParameters::boolean, stub_boolean)]
@@ -113,7 +113,7 @@ fn c07_helmert_static_fwd() {
     static_case(false);
 }
 
-//@h {"id":"C07.K.helmert.static.inv","props":["C07","C02","C10","C09","C01"],"tier":"quick","kind":"bounded","bound":"2 probe tuples (4th coordinate: all f64); parameters: power-of-two probes; rotation: signed permutation matrix","timeout":600,"text":"static 7-parameter case inverse = ROT^T*((x - T)/S): the TRANSPOSED matrix after removing offset and scale; t bit-identical; count = n"}
+//@h {"id":"C07.K.helmert.static.inv","props":["C07","C02","C10","C09","C01"],"tier":"quick","kind":"bounded","bound":"2 probe tuples (4th coordinate: all f64); parameters: power-of-two probes; rotation: signed permutation matrix","timeout":1800,"text":"static 7-parameter case inverse = ROT^T*((x - T)/S): the TRANSPOSED matrix after removing offset and scale; t bit-identical; count = n"}
 #[kani::proof]
 #[kani::unwind(20)]
 #[kani::stub(crate::op::ParsedParameters::boolean, stub_boolean)]
@@ -123,7 +123,7 @@ fn c07_helmert_static_inv() {
     static_case(true);
 }
 
-//@h {"id":"C07.K.helmert.fixed_time","props":["C07","C02"],"tier":"quick","kind":"bounded","bound":"2 tuples, all f64 coordinates and epochs; parameters: power-of-two probes","timeout":900,"text":"with t_obs given (fixed_time) the tuple epochs are ignored: result = S*x + T with the stored (already folded) parameters whatever the 4th coordinate is"}
+//@h {"id":"C07.K.helmert.fixed_time","props":["C07","C02"],"tier":"quick","kind":"bounded","bound":"2 tuples, all f64 coordinates and epochs; parameters: power-of-two probes","timeout":1800,"text":"with t_obs given (fixed_time) the tuple epochs are ignored: result = S*x + T with the stored (already folded) parameters whatever the 4th coordinate is"}
 #[kani::proof]
 #[kani::unwind(20)]
 #[kani::stub(crate::op::ParsedParameters::boolean, stub_boolean)]
@@ -150,7 +150,7 @@ fn c07_helmert_fixed_time() {
     assert!(same(data[0][0], 2.0 * c0[0] + 8.0) && beq(data[0][3], c0[3]) && beq(data[1][3], c1[3]), "C07.K.helmert.fixed_time: first tuple likewise; 4th coordinate untouched");
 }
 
-//@h {"id":"C07.K.rotmat.transpose.small","props":["C07"],"tier":"quick","kind":"complete","timeout":600,"text":"small-angle mode, all f64 angles: position_vector matrix is the transpose of the coordinate_frame matrix, and equals the coordinate_frame matrix of the negated angles (one convention with r equals the other with -r)"}
+//@h {"id":"C07.K.rotmat.transpose.small","props":["C07"],"tier":"quick","kind":"complete","timeout":1800,"text":"small-angle mode, all f64 angles: position_vector matrix is the transpose of the coordinate_frame matrix, and equals the coordinate_frame matrix of the negated angles (one convention with r equals the other with -r)"}
 #[kani::proof]
 fn c07_rotmat_transpose_small() {
     let r: [f64; 3] = kani::any();
@@ -195,7 +195,7 @@ fn memo_sin_cos(x: f64) -> (f64, f64) {
     }
 }
 
-//@h {"id":"C07.K.rotmat.transpose.exact","props":["C07"],"tier":"quick","kind":"bounded","bound":"sin_cos replaced by an injective memo table (uninterpreted function evaluated at a generic power-of-two point: every multilinear monomial of the six sines/cosines gets a distinct exactly representable value); three pairwise distinct angles","timeout":600,"replay":"none","text":"exact mode: position_vector matrix == transpose of the coordinate_frame matrix as polynomials in sin/cos of the three angles (checked at a generic evaluation point)"}
+//@h {"id":"C07.K.rotmat.transpose.exact","props":["C07"],"tier":"quick","kind":"bounded","bound":"sin_cos replaced by an injective memo table (uninterpreted function evaluated at a generic power-of-two point: every multilinear monomial of the six sines/cosines gets a distinct exactly representable value); three pairwise distinct angles","timeout":1800,"replay":"none","text":"exact mode: position_vector matrix == transpose of the coordinate_frame matrix as polynomials in sin/cos of the three angles (checked at a generic evaluation point)"}
 #[kani::proof]
 #[kani::unwind(8)]
 #[kani::stub(f64::sin_cos, memo_sin_cos)]
@@ -215,7 +215,7 @@ fn c07_rotmat_transpose_exact() {
     assert!(cf[0][2] == sx * sz - cx * sy * cz && cf[1][2] == sx * cz + cx * sy * sz, "C07.K.rotmat.exact.col2");
 }
 
-//@h {"id":"C07.K.helmert.dynamic_rot","props":["C07","C02"],"tier":"quick","kind":"bounded","bound":"2 tuples with epochs t_epoch+4 then t_epoch (any order via symbolic swap); small-angle mode; parameters: power-of-two probes; coordinates: small-integer probes","timeout":900,"text":"rotation + scale rates: the rotation matrix and scale used for a tuple are those of its own epoch (R + (t-t_epoch)*DR, S + (t-t_epoch)*DS), also for a tuple AT the reference epoch that follows a tuple of another epoch"}
+//@h {"id":"C07.K.helmert.dynamic_rot","props":["C07","C02"],"tier":"quick","kind":"bounded","bound":"2 tuples with epochs t_epoch+4 then t_epoch (any order via symbolic swap); small-angle mode; parameters: power-of-two probes; coordinates: small-integer probes","timeout":1800,"text":"rotation + scale rates: the rotation matrix and scale used for a tuple are those of its own epoch (R + (t-t_epoch)*DR, S + (t-t_epoch)*DS), also for a tuple AT the reference epoch that follows a tuple of another epoch"}
 #[kani::proof]
 #[kani::unwind(20)]
 #[kani::stub(crate::op::ParsedParameters::boolean, stub_boolean)]
